@@ -111,14 +111,15 @@ type Step struct {
 }
 
 type ConnCfg struct {
-	PingMs      []int  `json:"pingMs,omitempty"` // [interval, timeout]
-	DialDelayMs int    `json:"dialDelayMs,omitempty"`
-	Storage     string `json:"storage,omitempty"` // "" (library default) | payload | nopayload
-	NodeID      string `json:"nodeID,omitempty"`
-	Unreliable  bool   `json:"unreliable,omitempty"` // offer a second, unreliable transport (AsUnreliable)
-	Encoding    string `json:"encoding,omitempty"`   // "" = protobuf (library default) | "json"
-	AliasReuse  bool   `json:"aliasReuse,omitempty"` // the broker hands out the stream aliases of closed upstreams again
-	OnReconnected string `json:"onReconnected,omitempty"` // "sendMeta": the application's Reconnected handler sends a metadata request
+	PingMs         []int  `json:"pingMs,omitempty"` // [interval, timeout]
+	DialDelayMs    int    `json:"dialDelayMs,omitempty"`
+	Storage        string `json:"storage,omitempty"` // "" (library default) | payload | nopayload
+	NodeID         string `json:"nodeID,omitempty"`
+	Unreliable     bool   `json:"unreliable,omitempty"`     // offer a second, unreliable transport (AsUnreliable)
+	Encoding       string `json:"encoding,omitempty"`       // "" = protobuf (library default) | "json"
+	AliasReuse     bool   `json:"aliasReuse,omitempty"`     // the broker hands out the stream aliases of closed upstreams again
+	OnReconnected  string `json:"onReconnected,omitempty"`  // "sendMeta": the application's Reconnected handler sends a metadata request
+	OnDisconnected string `json:"onDisconnected,omitempty"` // "closeConn": the application's Disconnected handler closes the connection (again)
 }
 
 type Scenario struct {
@@ -171,10 +172,10 @@ type proc struct {
 // Driver runs one iscp-level scenario.
 type Driver struct {
 	arena []*message.DataPoint // backing array shared by the argument slices of all writes
-	sc   *Scenario
-	rec  *Rec
-	b    *Broker
-	conn *iscp.Conn
+	sc    *Scenario
+	rec   *Rec
+	b     *Broker
+	conn  *iscp.Conn
 
 	mu     sync.Mutex
 	ups    map[string]*iscp.Upstream
@@ -472,6 +473,14 @@ func (d *Driver) exec(st *Step, g string) {
 			iscp.WithConnDisconnectedEventHandler(iscp.DisconnectedEventHandlerFunc(func(*iscp.DisconnectedEvent) {
 				d.rec.Log("Disconnected")
 				d.b.HandlerHold("Disconnected") // an application handler may take its time (step holdHandler)
+				if d.sc.Conn.OnDisconnected == "closeConn" && d.conn != nil {
+					// a clean-up handler that closes whatever is left of the connection
+					d.api("DH", "CloseConn", "conn", nil, func() (error, []any) {
+						ctx, cancel := d.ctx(2000)
+						defer cancel()
+						return d.conn.Close(ctx), nil
+					})
+				}
 			})),
 			iscp.WithConnReconnectedEventHandler(iscp.ReconnectedEventHandlerFunc(func(*iscp.ReconnectedEvent) {
 				d.rec.Log("Reconnected")
